@@ -337,6 +337,10 @@ func decls() []decl {
 		{name: "c1", inputs: []controller.Input{rin(t2, "", controller.InputWeak)}, outputs: []controller.Output{sh(o2)}}, // same name again
 		{name: "u1", update: true, inputs: []controller.Input{rin(t2, "", controller.InputWeak)}},
 		{name: "u2-dup", update: true, inputs: []controller.Input{rin(t1, "", controller.InputWeak), rin(t1, "", controller.InputStrong)}},
+		// one event matching two inputs of the same controller, only one of them destroy-ready
+		{name: "c11-kindDR+idweak", inputs: []controller.Input{rin(t1, "", controller.InputDestroyReady), rin(t1, "b", controller.InputWeak)}, outputs: []controller.Output{sh(o1)}},
+		{name: "c12-kindweak+idDR", inputs: []controller.Input{rin(t1, "", controller.InputWeak), rin(t1, "b", controller.InputDestroyReady)}, outputs: []controller.Output{sh(o2)}},
+		{name: "u3-mixed", update: true, inputs: []controller.Input{rin(t1, "", controller.InputStrong), rin(t1, "a", controller.InputDestroyReady)}},
 	}
 }
 
@@ -552,8 +556,19 @@ func runSequence(x *explore.X, seq []int, startAt int) {
 			}
 			for n, p := range probes {
 				woken := p.Reconciles > before[n]
-				// destroy-ready inputs only wake on tearing-down resources without finalizers
-				if k, ok := m.inputs[n][inKey{hx.NS, string(w.typ), "", false}]; ok && k == controller.InputDestroyReady && len(m.inputs[n]) == 1 {
+				// destroy-ready inputs only wake on tearing-down resources without finalizers: a creation wakes the
+				// controller iff one of its matching inputs (kind-wide or by ID) is not destroy-ready
+				matchesDR, matchesOther := false, false
+				for _, k := range []inKey{{hx.NS, string(w.typ), "", false}, {hx.NS, string(w.typ), w.id, true}} {
+					if kind, ok := m.inputs[n][k]; ok {
+						if kind == controller.InputDestroyReady {
+							matchesDR = true
+						} else {
+							matchesOther = true
+						}
+					}
+				}
+				if matchesDR && !matchesOther {
 					if woken {
 						fail("api/wake", "controller %s (destroy-ready input) was woken by the creation of %s/%s", n, w.typ, w.id)
 					}
@@ -838,7 +853,7 @@ func apiScenario(first int, maxLen int) explore.Scenario {
 	ds := decls()
 	return explore.Scenario{
 		Name:       fmt.Sprintf("api/first=%02d-%s/len<=%d", first, ds[first].name, maxLen),
-		Desc:       fmt.Sprintf("all sequences of <= %d RegisterController/RegisterQController/UpdateInputs calls starting with %s over 14 valid and invalid declarations, runtime started at every position; real runtime on the deterministic default schedule, run to quiescence; graph, wake-ups and crash-freedom checked", maxLen, ds[first].name),
+		Desc:       fmt.Sprintf("all sequences of <= %d RegisterController/RegisterQController/UpdateInputs calls starting with %s over %d valid and invalid declarations, runtime started at every position; real runtime on the deterministic default schedule, run to quiescence; graph, wake-ups and crash-freedom checked", maxLen, ds[first].name, len(ds)),
 		Sequential: true,
 		Body: func(x *explore.X) {
 			n := 0
